@@ -751,8 +751,8 @@ func TestCheck(t *testing.T) {
 	}
 
 	rng := r.Rand("c18")
-	nTicker := r.N(5000, 200000)
-	nFlusher := r.N(500, 10000)
+	nTicker := r.N(5000, 1000000)
+	nFlusher := r.N(500, 50000)
 	for i := 0; i < nTicker; i++ {
 		k.runTicker(genCase(rng, "ticker"))
 		if r.Violations() > 8 {
